@@ -267,10 +267,6 @@ def judge(case):
             "sample": {"literal": M.tokens_text(M.lit_tokens(lit)), "value": repr(v)[:80], "probe_inputs": [repr(n)[:40] for n in nb[:6]]}}
 
 
-def judge_case(record):
-    return judge(record["case"])["viol"]
-
-
 def fixed_cases():
     for s in SPECIAL_STRS:
         if not ('"' in s and "'" in s) and not any(c in s for c in M.LINE_BREAKS):
@@ -283,9 +279,71 @@ def fixed_cases():
         yield {"lit": M.lit_float(s, True), "other": M.lit_int("3")}
 
 
+def _lit_of_py(v):
+    if isinstance(v, tuple):
+        return M.tup([_lit_of_py(x) for x in v])
+    return M.lit_of(v)
+
+
+TUPLES = [
+    # runs of consecutive integers (a membership test, not a range test: 3.5 is no member), in any order, with and without gaps
+    (3, 4, 5, 6), (6, 5, 4, 3), (1, 2, 3), (0, 1, 2, 3, 4, 5, 6, 7, 8, 9), (-1, 0, 1), (2, 4, 6), (1, 2, 4), (10, 11, 12, 14), (1.0, 2.0, 3.0), (1, 2.0, 3),
+    (0.5, 1.5, 2.5), ("a", "b", "c"), ("1", "2", "3"), (1, "2", 3),
+    # tuples of pairs that look like the keyword arguments of something (a model, a dict)
+    (("name", "alice"), ("plan", "pro")), (("name", "uid"),), (("name", "x"), ("name", "y")), (("group_definition", "a"), ("weight", 1)),
+    (("left_term", 1), ("operator", "=="), ("right_term", 2)), (("id", "e"), ("conditions", 1)), (("k", "v"),), ((1, 2), (3, 4)), (("a", 1), ("b", 2), ("c", 3)),
+    (("name",),), ("name", "uid"), (("name", "uid", "x"),),
+]
+
+
+def judge_tuple(case):
+    """a tuple literal keeps its members (value, type, order, nesting) as the right operand of in / not in and as either
+    operand of == / !=; probed with its members, values between / next to them, its own value and re-shaped look-alikes"""
+    t = M.dec(case["tuple"])
+    lit = _lit_of_py(t)
+    x = M.ident("x")
+    viol = []
+    flat = []
+
+    def walk(v):
+        for e in v:
+            if isinstance(e, tuple):
+                flat.append(e)
+                walk(e)
+            else:
+                flat.append(e)
+    walk(t)
+    probes = list(t) + flat + [t, list(t), t[::-1], t[:-1], t + (0,), None, "", "name", "uid", 0, {"name": "uid"}]
+    if all(isinstance(q, tuple) and len(q) == 2 for q in t):
+        try:
+            probes.append(dict(t))
+        except (TypeError, ValueError):
+            pass
+    nums = sorted({e for e in flat if isinstance(e, (int, float)) and not isinstance(e, bool)})
+    for a, b in zip(nums, nums[1:]):
+        probes += [(a + b) / 2, math.nextafter(float(a), math.inf), math.nextafter(float(b), -math.inf)]
+    if nums:
+        probes += [nums[0] - 0.5, nums[-1] + 0.5, float(nums[0]), str(nums[0]), nums[0] - 1, nums[-1] + 1]
+    envs = [{"x": p, "uid": "u-17"} for p in probes]
+    _run_prog(M.program("e", M.if_([(M.cmp_(x, "in", lit), R_EQ)], R_NE)), envs, viol, "tuple as the right operand of in")
+    _run_prog(M.program("e", M.if_([(M.cmp_(x, "not in", lit), R_NE)], R_EQ), splitters=["uid"]), envs, viol, "tuple as the right operand of not in")
+    _run_prog(M.program("e", M.if_([(M.cmp_(x, "==", lit), R_EQ)], R_NE)), envs, viol, "tuple as the right operand of ==")
+    _run_prog(M.program("e", M.if_([(M.cmp_(lit, "!=", x), R_NE)], R_EQ), splitters=["uid"]), envs, viol, "tuple as the left operand of !=")
+    _run_prog(M.program("e", M.if_([(M.cmp_(x, "in", M.tup([lit, M.lit_int("0")])), R_EQ)], R_NE)), envs, viol, "tuple as a member of a tuple")
+    return {"viol": viol[:6], "nontrivial": True, "tags": ["tuple-literal"], "key": case["tuple"], "sample": {"tuple": repr(t)}}
+
+
+def judge_case(record):
+    c = record["case"]
+    return (judge_tuple(c) if "tuple" in c else judge(c))["viol"]
+
+
 def run(ctx, rec):
     if ctx.shard == 0:
         runner.direct_run(ctx, rec, "catalogue", fixed_cases(), judge)
+        if rec.violations:
+            return
+        runner.direct_run(ctx, rec, "tuple-catalogue", [{"tuple": M.enc(t)} for t in TUPLES], judge_tuple)
         if rec.violations:
             return
     runner.hyp_run(ctx, rec, "generated-literals", cases(), judge, ctx.n(300, 2500))
